@@ -168,6 +168,19 @@ def gen_program(rng):
                 lines.append((bad, ("fail",)))
         else:
             lines.append((rng.choice(["", "   ", "# a comment"]), ("skip",)))
+        if rng.random() < 0.12:
+            # a name used while it is still plain text, then bound, then the IDENTICAL line again (a use denotes what the
+            # name holds at that point of the text, whatever the line evaluated to earlier)
+            unbound = [n for n in names if key(n) not in env and key(n) not in other]
+            if unbound:
+                n = rng.choice(unbound)
+                k, v = rng.randint(1, 50), rng.randint(2, 9)
+                use = rng.choice([f"{n} + {k}", f"{k} + {n}", f"{n} * {k}"])
+                lines.append((use, ("skip",)))
+                lines.append((f"{n} = {v}", ("num", float(v))))
+                env[key(n)] = float(v)
+                lines.append((use, ("num", float(v * k) if "*" in use else float(v + k))))
+                rebinds += 1
     return lines, rebinds
 
 
@@ -181,6 +194,7 @@ def run(ctx, model_ok):
         ([("x = 1", ("num", 1.0)), ("y = x", ("num", 1.0)), ("x = 7", ("num", 7.0)), ("y", ("num", 1.0)), ("x = x + 1", ("num", 8.0)), ("x", ("num", 8.0))], 2),
         ([("my var = 1", ("num", 1.0)), ("my var long = 2", ("num", 2.0)), ("my var long + my var", ("num", 3.0)), ("my var + my var long", ("num", 3.0))], 1),
         ([("x = 5", ("num", 5.0)), ("x = 1 +", ("fail",)), ("x", ("num", 5.0)), ("x = 2 * 1 usd", ("fail",)), ("x + 1", ("num", 6.0))], 1),
+        ([("tax + 10", ("skip",)), ("tax = 2", ("num", 2.0)), ("tax + 10", ("num", 12.0)), ("tax + 10", ("num", 12.0))], 1),
         ([("Total = 4", ("num", 4.0)), ("TOTAL * 2", ("num", 8.0)), ("total = total - 1", ("num", 3.0)), ("tOtAl", ("num", 3.0))], 1),
     ]
     progs = curated + progs
